@@ -7,6 +7,7 @@ base and not used by any theorem.
 -/
 import EkwVerif.Lemmas.CtrlInvDefs
 import EkwVerif.Lemmas.CtrlInv4X
+import EkwVerif.Lemmas.SchedLiveDefs
 
 namespace EkwVerif.Ctrl.Check
 open EkwVerif.Ctrl
@@ -73,7 +74,7 @@ def checks (j : Job) (cl : Cluster) (s : Sys) : List (String × Bool) :=
     ("2.flight_queued_or_ran", wt.all (fun p => imp (inFlightB s p.1 p.2) (e.queued.contains p || e.ran p.2))),
     ("2.ev_count", pubWs.all (fun p => allEv.count (Event.pubW p.1 p.2) ≤ 1)),
     ("2.ev_ran", pubWs.all (fun p => e.ran p.2.task && p.2.out < j.nOut p.2.task)),
-    ("2.ev_last_flight", pubWs.all (fun p => imp (j.isLast p.2) (inFlightB s p.1 p.2.task))),
+    ("2.ev_flight", pubWs.all (fun p => inFlightB s p.1 p.2.task)),
     ("2.inbox_phase", imp (s.phase != .notifying && s.phase != .crashed) s.inbox.isEmpty),
     ("2.ptrack_sound", d.dss.all (fun ds => (j.consumers ds).all (fun t => imp (c.doneC t == false) (c.ptracked ds && (c.ptrack ds).contains t)))),
     ("2.purgeQ_ok", c.purgeQ.all (fun ds => (j.consumers ds).all (fun t => c.doneC t) && imp (j.ext.contains ds) (c.outputs ds).isSome && c.announced ds)),
@@ -127,6 +128,20 @@ def checks (j : Job) (cl : Cluster) (s : Sys) : List (String × Bool) :=
         ((e.present h ds).isSome || inboundTransmit e ds h)))),
     ("4X.status_unran", d.hosts.all (fun h => d.dss.all (fun ds => imp (c.hostDs h ds != .missing && e.ran ds.task == false)
         (d.workers.any (fun w => w.host == h && inFlightB s w ds.task))))),
+    -- tier P (record of processed output notices) and tier L (liveness bookkeeping), any order
+    ("P.pub_once", pubWs.all (fun p => c.published p.2 == false)),
+    ("P.pub_ran", d.dss.all (fun ds => imp (c.published ds) (e.ran ds.task && ds.out < j.nOut ds.task))),
+    ("P.pub_announced", d.dss.all (fun ds => imp (c.published ds) (c.announced ds))),
+    ("P.done_iff", j.taskIds.all (fun t => c.doneC t == (List.range (j.nOut t)).all (fun k => c.published ⟨t, k⟩))),
+    ("P.allPublished", d.tasks.all (fun t => c.allPublished j t ==
+        (((List.range (j.nOut t + 3)).filter (fun k => c.published ⟨t, k⟩)).length == j.nOut t))),   -- the len() comparison of the code
+    ("L.notice", d.tasks.all (fun t => imp (e.ran t) ((List.range (j.nOut t)).all (fun k =>
+        c.published ⟨t, k⟩ || pubWs.any (fun p => p.2 == ⟨t, k⟩))))),
+    ("L.done_announced", d.tasks.all (fun t => imp (c.doneC t) ((List.range (j.nOut t)).all (fun k => c.announced ⟨t, k⟩)))),
+    ("L.disp_flight_or_done", d.tasks.all (fun t => imp (c.dispatched t == 1) (c.doneC t || d.workers.any (fun w => inFlightB s w t)))),
+    ("L.undisp", j.taskIds.all (fun t => imp (c.dispatched t == 0) (c.computable.contains t || (c.tracked t && !(c.tracker t).isEmpty)))),
+    ("L.tracker_sound", d.tasks.all (fun t => imp (c.tracked t) ((c.tracker t).all (fun ds => (j.inputs t).contains ds && c.announced ds == false)))),
+    ("L.workers_cover", cl.ids.all (fun w => c.idle.contains w || d.tasks.any (fun t => inFlightB s w t))),
     -- monitors and crashes
     ("viol_empty", e.viol.isEmpty),
     ("no_crash", s.err.isNone) ]
